@@ -235,4 +235,36 @@ push_slice, extend, truncate, clear, remove, swap_remove, resize, an indexed wri
 list of exactly the length it was given: every write of the model faults outside its list, so nothing beyond the value was touched. -/
 theorem C14_vec_op_keeps_length (g : VecGeo) (bs : Bytes) (len : Nat) (op : Op) (o : OpOut) (h : vecOp g bs len op = .ok o) :
     o.bytes.length = bs.length := vecOp_length g bs len op o h
+/-- **C14 (operations on a struct's last field).** `msg.tail.push(..)` — any operation on the unsized last field of a struct — changes
+only bytes of that field: the sized fields in front of it (everything before `LAST_FIELD_OFFSET`) and everything behind the struct's
+own (floored) bytes are byte-for-byte as before, and the buffer keeps its length — provided the nested operation keeps the length of
+the field's bytes, which every operation of the model does (`C14_vec_op_keeps_length` for vectors and strings). -/
+theorem C14_last_field_frame (fs : List Ty) (last : Ty) (op : Op) (s : Slice) (out : OpOut)
+    (h : applyOp (.last op) (.ustruct fs last) s = .ok out)
+    (hkeep : ∀ o, applyOp op last ⟨s.addr + ceilMul (foldSize (dictL fs) 0) last.dict.align,
+        (s.bytes.take (floorMul s.len (alignL (dictL fs ++ [last.dict])))).drop (ceilMul (foldSize (dictL fs) 0) last.dict.align)⟩ = .ok o →
+      o.bytes.length = floorMul s.len (alignL (dictL fs ++ [last.dict])) - ceilMul (foldSize (dictL fs) 0) last.dict.align) :
+    out.bytes.length = s.bytes.length ∧
+    out.bytes.take (ceilMul (foldSize (dictL fs) 0) last.dict.align) = s.bytes.take (ceilMul (foldSize (dictL fs) 0) last.dict.align) ∧
+    out.bytes.drop (floorMul s.len (alignL (dictL fs ++ [last.dict]))) = s.bytes.drop (floorMul s.len (alignL (dictL fs ++ [last.dict]))) := by
+  simp only [applyOp] at h
+  split at h
+  · cases h
+  · rename_i hle
+    generalize hn : floorMul s.len (alignL (dictL fs ++ [last.dict])) = n at *
+    generalize hlfo : ceilMul (foldSize (dictL fs) 0) last.dict.align = lfo at *
+    have hnle : n ≤ s.bytes.length := by rw [← hn]; exact floorMul_le _ _
+    cases hi : applyOp op last ⟨s.addr + lfo, (s.bytes.take n).drop lfo⟩ with
+    | ok o =>
+      rw [hi, Res.bind_ok] at h
+      cases h
+      have hl := hkeep o hi
+      have hpre : (s.bytes.take lfo).length = lfo := by rw [List.length_take]; omega
+      have hmid : (s.bytes.take lfo ++ o.bytes).length = n := by rw [List.length_append, hpre, hl]; omega
+      refine ⟨?_, ?_, ?_⟩
+      · simp only [List.length_append, List.length_drop, hpre, hl]; omega
+      · rw [List.append_assoc, List.take_append_of_le_length (by omega), List.take_of_length_le (by omega)]
+      · rw [List.drop_append_of_le_length (by omega), List.drop_of_length_le (by omega), List.nil_append]
+    | err e => rw [hi] at h; simp at h
+    | fault f => rw [hi] at h; simp at h
 end FV.Props
